@@ -504,6 +504,11 @@ class Interp:
             for c in cands:
                 if all(s in c for s in segs[-2:]):
                     return c
+            # `module::Type::method` at the use site is `module::<impl at file.rs..>::method` at the definition
+            if len(segs) >= 3:
+                sel = [c for c in cands if (segs[-3] + "::<impl at") in c or (segs[-3] + ".rs") in c]
+                if len(sel) == 1:
+                    return sel[0]
             return None
         last = last_segment(text)
         cands = [n for n in self.by_last.get(last, []) if getattr(self.fns[n], "is_const", False)]
@@ -710,6 +715,10 @@ class Interp:
         (ctx.exact_int) for validation runs on concrete inputs."""
         xv = x if is_sym(x) else z3.IntVal(x)
         yv = y if is_sym(y) else z3.IntVal(y)
+        # operands in disjoint bit ranges (cheap syntactic interval / power-of-two-factor analysis):
+        # x & y = 0 exactly, no uninterpreted function needed
+        if self.disjoint_bits(xv, yv) or self.disjoint_bits(yv, xv):
+            return {"BitAnd": z3.IntVal(0), "BitOr": xv + yv, "BitXor": xv + yv}[op]
         f = z3.Function("band", z3.IntSort(), z3.IntSort(), z3.IntSort())
         a = f(xv, yv)
         splits = sorted(set(list(range(7, bits, 7)) + [8, 16, 32]))
@@ -723,6 +732,19 @@ class Interp:
             self.ctx.exact_int = []
         self.ctx.exact_int.append(a == z3.BV2Int(z3.Int2BV(xv, bits) & z3.Int2BV(yv, bits)))
         return {"BitAnd": a, "BitOr": xv + yv - a, "BitXor": xv + yv - 2 * a}[op]
+
+    def disjoint_bits(self, lo_part, hi_part):
+        """True if 0 <= lo_part < 2^k and hi_part is a multiple of 2^k for some k (sound, incomplete)"""
+        import bvquery
+        key = len(self.pc)
+        if getattr(self, "_bounds_key", None) != key:
+            self._bounds = bvquery.collect_bounds(self.pc)
+            self._bounds_key = key
+        k = pow2_factor(hi_part)
+        if k <= 0:
+            return False
+        iv = interval(lo_part, self._bounds)
+        return iv is not None and iv[0] >= 0 and iv[1] < (1 << k)
 
     def wrap(self, raw, bits, signed=False):
         mod = 1 << bits
@@ -758,6 +780,80 @@ class Interp:
         self.ctx.side += [z3.And(q >= 0, q <= 2**64), z3.And(r >= 0, r <= 2**64), z3.Implies(y > 0, z3.And(r < y, x == prod + r, q <= x))]
         self.ctx.exact_int.append(z3.Implies(y > 0, z3.And(q == x / y, r == x % y)))
         return q, r
+
+
+def pow2_factor(e):
+    """largest k (capped at 4096) such that the integer term e is syntactically a multiple of 2^k"""
+    BIG = 4096
+    if z3.is_int_value(e):
+        c = e.as_long()
+        return BIG if c == 0 else (c & -c).bit_length() - 1
+    if not z3.is_app(e):
+        return 0
+    k = e.decl().kind()
+    ch = e.children()
+    if k == z3.Z3_OP_MUL:
+        return min(BIG, sum(pow2_factor(c) for c in ch))
+    if k in (z3.Z3_OP_ADD, z3.Z3_OP_SUB):
+        return min(pow2_factor(c) for c in ch)
+    if k == z3.Z3_OP_UMINUS:
+        return pow2_factor(ch[0])
+    if k == z3.Z3_OP_ITE:
+        return min(pow2_factor(ch[1]), pow2_factor(ch[2]))
+    if k == z3.Z3_OP_MOD and z3.is_int_value(ch[1]):
+        m = ch[1].as_long()
+        if m > 0 and m & (m - 1) == 0:
+            return min(pow2_factor(ch[0]), m.bit_length() - 1)
+    return 0
+
+
+def interval(e, bounds):
+    """(lo, hi) of an integer term from variable bounds, or None"""
+    if z3.is_int_value(e):
+        c = e.as_long()
+        return (c, c)
+    if not z3.is_app(e):
+        return None
+    k = e.decl().kind()
+    ch = e.children()
+    if k == z3.Z3_OP_UNINTERPRETED:
+        if e.num_args() == 0:
+            lo, hi = bounds.get(e.decl().name(), [None, None])
+            return None if lo is None or hi is None else (lo, hi)
+        if e.decl().name() == "band":
+            a, b = interval(ch[0], bounds), interval(ch[1], bounds)
+            his = [x[1] for x in (a, b) if x is not None and x[0] >= 0]
+            return (0, min(his)) if his else None
+        return None
+    sub = [interval(c, bounds) for c in ch]
+    if k == z3.Z3_OP_MOD and z3.is_int_value(ch[1]) and ch[1].as_long() > 0:
+        m = ch[1].as_long()
+        if sub[0] is not None and sub[0][0] >= 0 and sub[0][1] < m:
+            return sub[0]
+        return (0, m - 1)
+    if any(x is None for x in sub):
+        return None
+    if k == z3.Z3_OP_ADD:
+        return (sum(x[0] for x in sub), sum(x[1] for x in sub))
+    if k == z3.Z3_OP_SUB:
+        lo, hi = sub[0]
+        for x in sub[1:]:
+            lo, hi = lo - x[1], hi - x[0]
+        return (lo, hi)
+    if k == z3.Z3_OP_UMINUS:
+        return (-sub[0][1], -sub[0][0])
+    if k == z3.Z3_OP_MUL:
+        lo, hi = sub[0]
+        for x in sub[1:]:
+            c = [lo * x[0], lo * x[1], hi * x[0], hi * x[1]]
+            lo, hi = min(c), max(c)
+        return (lo, hi)
+    if k == z3.Z3_OP_ITE:
+        return (min(sub[1][0], sub[2][0]), max(sub[1][1], sub[2][1])) if sub[1] and sub[2] else None
+    if k in (z3.Z3_OP_IDIV, z3.Z3_OP_DIV) and z3.is_int_value(ch[1]) and ch[1].as_long() > 0 and sub[0][0] >= 0:
+        d = ch[1].as_long()
+        return (sub[0][0] // d, sub[0][1] // d)
+    return None
 
 
 class SymIndexBox:
